@@ -331,6 +331,9 @@ def _manual_session(self, obj, a):
 Real.manual_session = _manual_session
 
 
+DEV_CAP = 3000       # deviating steps judged per replayer (400 deviating steps cost TLC about 8 s)
+
+
 class Replayer:
     """Breadth-first replay of an exported graph on real objects."""
 
@@ -483,11 +486,17 @@ class Replayer:
         uniq = {}
         for t in todo:
             uniq.setdefault(json.dumps(strip(t), sort_keys=True), t)
-        todo = list(uniq.values())[:400]
+        n_dev = len(uniq)
+        todo = list(uniq.values())[:DEV_CAP]
+        if n_dev > DEV_CAP:
+            print(f"  [trace validation] {n_dev} distinct deviating steps, only the first {DEV_CAP} are judged")
         traces = todo + self.good_traces
         if not traces:
             return
+        import time as _time
+        _t0 = _time.time()
         acc = validate_traces([strip(t) for t in traces], self.trace_consts, f"trace-{run.pid}")
+        print(f"  [trace validation] {len(todo)} deviating + {len(self.good_traces)} matching steps judged by TLC in {_time.time() - _t0:.1f}s")
         run.traces += len(traces)
         for i, t in enumerate(traces, start=1):
             if i in acc:
